@@ -169,7 +169,7 @@ Proof.
   destruct (RelWrapGrammarP.text_ws_tree true rf Hwf) as [_ Et]. fold o in Et.
   pose proof (RelWrapGrammarP.canon_field_wf true rf Hwf) as Hc.
   pose proof (RelWrapGrammarP.field_safe_canon true rf Hwf Hs) as Hsc.
-  split; [exact E1|]. split; [|rewrite Et; apply (RelShape.canon_single_line true rf Hwf)].
+  split; [exact (rel_arm_ok _ _ _ E1)|]. split; [|rewrite Et; apply (RelShape.canon_single_line true rf Hwf)].
   intros lead Hl. set (fc := RelWrapSpec.canon_field rf) in *.
   set (fl := RelGrammar.mk_rfield lead (RelGrammar.f_first fc) (RelGrammar.f_rest fc)).
   assert (Elead : RelGrammar.f_lead fc = []).
@@ -182,18 +182,21 @@ Proof.
     rewrite (lead_char_fws lead Hl), Hc1, Hc2. reflexivity. }
   destruct (RelWrapGrammarP.ctl_rel_wf fl Hwl Hsc) as [F1 _]. rewrite Er in F1.
   destruct (RelWrapGrammarP.ctl_rel_wf fc Hc Hsc) as [G1 _]. rewrite <- Et, E2 in G1. injection G1 as G1.
-  unfold real_rel. rewrite F1. f_equal. change (RelWrapGrammarP.ws_tree fl) with (RelWrapGrammarP.ws_tree fc). symmetry. exact G1.
+  unfold real_rel. apply rel_arm_ok. rewrite F1. f_equal. change (RelWrapGrammarP.ws_tree fl) with (RelWrapGrammarP.ws_tree fc). symmetry. exact G1.
 Qed.
 
-(* ---------------------------------------------------------------- format_field, branch by branch *)
-Definition is_rel_field (name : str) : bool := existsb (str_eqb name) (Lit.relation_fields true).
 
-Lemma real_ff_uploaders name v : str_eqb name Lit.k_Uploaders = true -> real_format_field name v = Ok (fmt_uploaders v).
+Lemma real_ff_uploaders name v : str_eqb name Lit.k_Uploaders = true -> real_format_field name v = Ok (fmt_uploaders_h v).
 Proof. intros H. unfold real_format_field, format_field. rewrite H. reflexivity. Qed.
 Lemma real_ff_rel name v : str_eqb name Lit.k_Uploaders = false -> is_rel_field name = true -> real_format_field name v = real_rel v.
 Proof. intros H1 H2. unfold real_format_field, format_field. cbn [v_typo fixed]. unfold is_rel_field in H2. rewrite H1, H2. reflexivity. Qed.
 Lemma real_ff_other name v : str_eqb name Lit.k_Uploaders = false -> is_rel_field name = false -> real_format_field name v = Ok v.
 Proof. intros H1 H2. unfold real_format_field, format_field. cbn [v_typo fixed]. unfold is_rel_field in H2. rewrite H1, H2. reflexivity. Qed.
+
+(* C07-22: a relationship field the relations parser rejects comes back as it is *)
+Lemma real_ff_unparsable name v : str_eqb name Lit.k_Uploaders = false -> is_rel_field name = true ->
+  RelWrap.ctl_rel RelWrap.fixed v = Panic 20 -> real_format_field name v = Ok v.
+Proof. intros H1 H2 H3. rewrite (real_ff_rel name v H1 H2). unfold real_rel. apply rel_arm_kept. exact H3. Qed.
 
 Lemma ctl_total_ok name v o : real_format_field name v = Ok o -> ctl_total name v = o.
 Proof. intros H. unfold ctl_total. rewrite H. reflexivity. Qed.
@@ -346,13 +349,6 @@ Proof.
   - rewrite E. apply shaped_lexes. exact HsF.
 Qed.
 
-Definition field_facts (c : wcfg) (f : field) : Prop :=
-  real_format_field (f_name f) (field_input f) = Ok (ctl_total (f_name f) (field_input f)) /\
-  fmt_shaped_on (Some ctl_total) f = true /\
-  field_stable c (Some ctl_total) f /\ fmt_lexes (Some ctl_total) (a_ws_field c (Some ctl_total) f) /\
-  real_format_field (f_name f) (field_input (a_ws_field c (Some ctl_total) f))
-    = Ok (ctl_total (f_name f) (field_input (a_ws_field c (Some ctl_total) f))) /\
-  (str_eqb (f_name f) Lit.k_Uploaders = false -> is_rel_field (f_name f) = false -> a_value (Some ctl_total) f = field_value f).
 
 Theorem ctl_field_facts c f m : ind_ok c = true -> wf_field f m = true -> ctl_field_ok f -> field_facts c f.
 Proof.
@@ -360,13 +356,13 @@ Proof.
   destruct (wf_field_ok None f m Hwf eq_refl) as (_ & Hcn & _).
   destruct (str_eqb (f_name f) Lit.k_Uploaders) eqn:Eu.
   - (* Uploaders *)
-    assert (Hg : forall v, ctl_total (f_name f) v = fmt_uploaders v) by (intros v; apply ctl_total_ok, real_ff_uploaders, Eu).
+    assert (Hg : forall v, ctl_total (f_name f) v = fmt_uploaders_h v) by (intros v; apply ctl_total_ok, real_ff_uploaders, Eu).
     assert (Hs : fmt_shaped_on (Some ctl_total) f = true) by (cbn [fmt_shaped_on]; fold (field_input f); rewrite Hg; exact Hok).
     split; [rewrite Hg; apply real_ff_uploaders, Eu|]. split; [exact Hs|].
     assert (Hst : field_stable c (Some ctl_total) f /\ fmt_lexes (Some ctl_total) (a_ws_field c (Some ctl_total) f)).
     { apply absorbing_stable_local; [| |exact Hcn|exact Hs].
-      - intros lead Hl. rewrite !Hg. apply (uploaders_absorbing [] (field_input f) lead Hl).
-      - rewrite Hg. apply (uploaders_no_lead [] (field_input f)). }
+      - intros lead Hl. rewrite !Hg. apply (uploaders_h_absorbing [] (field_input f) lead Hl).
+      - rewrite Hg. apply (uploaders_h_no_lead [] (field_input f)). }
     destruct Hst as [H1 H2]. split; [exact H1|]. split; [exact H2|]. split; [rewrite Hg; apply real_ff_uploaders, Eu|discriminate].
   - destruct (is_rel_field (f_name f)) eqn:Er; unfold is_rel_field in Er; rewrite Er in Hok.
     + (* a relationship field *)
@@ -461,12 +457,12 @@ Proof.
   destruct (items_ok_from_facts c its more Hwf Hfa) as [Hiok Hsh].
   destruct (result_items_ok c its more Hi Hwf Hfa) as [Hiok1 Hag1].
   assert (E1 : real_control_para_ws c (lblock_tree (LPara its)) = Ok (lblock_tree (LPara its1))).
-  { unfold real_control_para_ws, control_para_ws. fold real_format_field.
+  { unfold real_control_para_ws, control_para_ws. change (format_field fixed (rel_arm fixed (RelWrap.ctl_rel RelWrap.fixed))) with real_format_field.
     rewrite (para_ws_agree c None real_format_field ctl_total its) by (intros f Hf; apply (Hfa f Hf)).
     apply (para_ws_items c None None (Some ctl_total) its Hi I Hiok). }
   split; [exact E1|]. split; [apply (a_ws_items_pairs c None (Some ctl_total) its Hiok)|].
   split; [apply wf_a_ws_items; assumption|]. split; [apply a_ws_items_indented|].
-  unfold real_control_para_ws, control_para_ws. fold real_format_field.
+  unfold real_control_para_ws, control_para_ws. change (format_field fixed (rel_arm fixed (RelWrap.ctl_rel RelWrap.fixed))) with real_format_field.
   rewrite (para_ws_agree c None real_format_field ctl_total its1 Hag1).
   change (Some (pure_fmt ctl_total)) with (option_map pure_fmt (Some ctl_total)). cbn [lblock_tree].
   rewrite (para_ws_items c None None (Some ctl_total) its1 Hi I Hiok1). f_equal. f_equal. f_equal. unfold its1.
@@ -525,7 +521,7 @@ Proof.
   (* Control::wrap_and_sort is the standard reformatting with the total formatter, on this document ... *)
   assert (E1 : real_control_ws c (tree_of d) = std_ws fixed c (Some control_order) None (Some (pure_fmt ctl_total)) (tree_of d)).
   { unfold real_control_ws, control_ws, std_ws. rewrite <- ltree_of_lift. apply doc_ws_agree. intros its Hin.
-    unfold control_para_ws. fold real_format_field. apply para_ws_agree. intros f Hf. apply (Hfa its Hin f Hf). }
+    unfold control_para_ws. change (format_field fixed (rel_arm fixed (RelWrap.ctl_rel RelWrap.fixed))) with real_format_field. apply para_ws_agree. intros f Hf. apply (Hfa its Hin f Hf). }
   destruct (formatter_proof c (Some control_order) (Some control_cmp) None None ctl_total d Hi control_order_agrees I Hwf Hsh)
     as (F1 & F2 & F3 & F4 & F5). fold l1 in F1, F2, F3, F4, F5.
   split; [rewrite E1; exact F1|]. split; [exact F2|]. split; [exact F3|]. split; [exact F4|]. split; [exact F5|].
@@ -535,7 +531,7 @@ Proof.
     apply (In_a_ws_doc (Some control_cmp)) in Hx. destruct Hx as (its & Hin & ->).
     destruct (lwf_para_wf (lift d) its Hl Hin) as [m Hm].
     destruct (result_items_ok c its m Hi Hm (Hfa its Hin)) as [_ Hag].
-    unfold control_para_ws. fold real_format_field. apply para_ws_agree. intros f Hf.
+    unfold control_para_ws. change (format_field fixed (rel_arm fixed (RelWrap.ctl_rel RelWrap.fixed))) with real_format_field. apply para_ws_agree. intros f Hf.
     apply In_a_ws_items in Hf. destruct Hf as (f0 & Hf0 & ->). rewrite a_ws_field_name.
     destruct (Hfa its Hin f0 Hf0) as (_ & _ & _ & _ & Hd & _). exact Hd. }
   rewrite E2. apply (formatter_idem_proof c (Some control_order) (Some control_cmp) None None ctl_total d Hi control_order_agrees I Hwf Hsh).
@@ -546,16 +542,6 @@ Proof.
   - intros a b Ha Hb. apply (control_cmp_invariant c a b (Hfa a Ha) (Hfa b Hb)).
 Qed.
 
-(* ---------------------------------------------------------------- (3) idempotence with any formatter: what it takes *)
-(* The formatter absorbs the re-layout ON THIS DOCUMENT: on every field, its output does not start
-   with a blank or a line break, and it gives the same output when that output comes back with
-   blanks / line breaks in front (all the re-layout of a value adds).  Weaker than [absorbing]: a
-   formatter may treat fields of different names differently (format_field does). *)
-Definition absorbs_on (g : str -> str -> str) (l : ldocl) : Prop :=
-  forall its f, In (LPara its) l -> In (IField f) its ->
-    let o := g (f_name f) (field_input f) in
-    (forall lead, forallb lead_char lead = true -> g (f_name f) (lead ++ o) = o) /\
-    match o with [] => True | ch :: _ => lead_char ch = false end.
 
 Theorem absorbs_on_idem_proof c psort pcmp esort ecmp g d :
   ind_ok c = true -> pcmp_agrees psort pcmp -> ecmp_agrees esort ecmp -> wf_doc d = true ->
@@ -573,19 +559,6 @@ Proof.
   apply absorbing_stable_local; [exact A1|exact A2|exact Hc|apply (Hsh its f Hi Hf)].
 Qed.
 
-(* ... and it does take something: a formatter that appends "!" is shaped, and every application
-   appends another one *)
-Module WF.
-  Import Coq.Strings.String.
-  Local Open Scope string_scope.
-  Definition bang (k v : str) : str := (v ++ Lit.s2l "!")%list.
-  Definition d_bang : doc := [BPara (mk_field (Lit.s2l "A") (Lit.s2l " ") (Lit.s2l "b") [] true) []].
-  Definition c2 : wcfg := mk_wcfg (Spaces 2) false None.
-  Definition once : str := Lit.s2l "A: b!
-".
-  Definition twice : str := Lit.s2l "A: b!!
-".
-End WF.
 Lemma bang_not_idempotent :
   doc_shaped (Some WF.bang) (lift WF.d_bang) /\
   exists t1 t2, std_ws fixed WF.c2 None None (Some (pure_fmt WF.bang)) (tree_of WF.d_bang) = Ok t1 /\ text t1 = WF.once /\
